@@ -184,9 +184,24 @@ def oracle_plss(c):
         d3 = PLSSDesc(text, config=pq, wait_to_parse=True)
         d3.parse(**{s: value})
         s3 = snap_plss(d3)
-    chans = {"config at creation": s1, ".config= then parse()": s2}
+    # channel 1b: the same settings as a Config object
+    cfg_obj = Config(join(pq, item))
+    chans = {"config at creation": s1, ".config= then parse()": s2, "Config object at creation": snap_plss(PLSSDesc(text, config=cfg_obj))}
     if s3 is not None:
         chans[f"parse({s}={value!r})"] = s3
+    # a Config object handed to one description is not changed by that description's keyword overrides:
+    # the next description created from the same object reads like one created from the equal text
+    user = PLSSDesc(text, config=cfg_obj, wait_to_parse=True)
+    user.parse(parse_qq=True, clean_qq=True, qq_depth=1, break_halves=True, commit=bool(c["fill"].get("lot", 0) % 2))
+    user.parse_tracts(qq_depth_min=1, suppress_lot_divs=True)
+    chans["Config object used before by another description with keyword overrides"] = snap_plss(PLSSDesc(text, config=cfg_obj))
+    if s in PLSS_KW:
+        cfg0 = Config(pq)
+        PLSSDesc(text, config=cfg0, wait_to_parse=True).parse(**{s: value})
+        after = snap_plss(PLSSDesc(text, config=cfg0))
+        if after != base:
+            fails.append(Failure(f"keyword_leaks_into_config_object:{s}", f"{s}={value!r} on {text!r}: after one description was parsed with parse({s}={value!r}) its Config object ({pq!r}) gives {after['tracts']} {after['flags']} to the next description, the equal text gives {base['tracts']} {base['flags']}",
+                                 text=text, setting=s, value=value))
     _last["bit"] = any(v != base for v in chans.values())
     if not _last["bit"]:
         return []
@@ -195,7 +210,7 @@ def oracle_plss(c):
     ref = chans[ref_name]
     for name, v in chans.items():
         if v != ref:
-            kind = "keyword" if name.startswith("parse(") else ("config_assign" if name.startswith(".config") else "config_at_creation")
+            kind = "keyword" if name.startswith("parse(") else ("config_assign" if name.startswith(".config") else ("config_object" if name.startswith("Config object") else "config_at_creation"))
             fails.append(Failure(f"plss_channel_{kind}:{s}", f"{s}={value!r} on {text!r}: {ref_name} gives {ref['tracts']} {ref['flags']} [{ref['layout']}], but {name} gives {v['tracts']} {v['flags']} [{v['layout']}]", **ctx))
     s1 = ref
     if s in PLSS_KW:
@@ -332,6 +347,16 @@ def oracle_tract(c):
         return fails
     if s2 != s1:
         fails.append(Failure(f"tract_channel_config_assign:{s}", f"{s}={value!r} on {desc!r}: config at creation {s1}, .config= then parse() {s2}", **ctx))
+    # the same settings as a Config object; the object is not changed by the keyword overrides of the tract that used it
+    cfg_obj = Config(join(pq, item))
+    so = snap_tract(Tract(desc, config=cfg_obj))
+    if so != s1:
+        fails.append(Failure(f"tract_channel_config_object:{s}", f"{s}={value!r} on {desc!r}: config text gives {s1}, the equal Config object gives {so}", **ctx))
+    user = Tract(desc, config=cfg_obj)
+    user.parse(clean_qq=True, qq_depth=1, break_halves=True, suppress_lot_divs=True, commit=bool(f.get("lot", 0) % 2))
+    so2 = snap_tract(Tract(desc, config=cfg_obj))
+    if so2 != s1:
+        fails.append(Failure(f"tract_config_object_changed_by_use:{s}", f"{s}={value!r} on {desc!r}: after another tract used the Config object with keyword overrides it gives {so2}, expected {s1}", **ctx))
     if s == "parse_qq":
         t3 = Tract(desc, parse_qq=True)
         if snap_tract(t3) != s1:
